@@ -367,14 +367,14 @@ m("c20-merge-lost", ["C20"], "osaca/db_interface.py",
 
 # ---- C17 / C18
 m("c17-key-without-hash", ["C17"], "osaca/semantics/hw_model.py",
-  "        p = Path(filepath)\n        hexhash = hashlib.sha256(p.read_bytes()).hexdigest()\n\n        # 1. companion cachefile: same location, with '.<name>_<sha512hash>.pickle'\n        companion_cachefile = p.with_name(\".\" + p.stem + \"_\" + hexhash).with_suffix(\".pickle\")\n        if companion_cachefile.exists():",
-  "        p = Path(filepath)\n        hexhash = \"0\" * 64\n\n        # 1. companion cachefile: same location, with '.<name>_<sha512hash>.pickle'\n        companion_cachefile = p.with_name(\".\" + p.stem + \"_\" + hexhash).with_suffix(\".pickle\")\n        if companion_cachefile.exists():")
+  "        p = Path(filepath)\n        hexhash = hashlib.sha256(p.read_bytes()).hexdigest()\n\n        # 1. companion cachefile: same location, with '.<name>_<sha512hash>.pickle'\n        companion_cachefile = p.with_name(\".\" + p.stem + \"_\" + hexhash + \".pickle\")\n        if companion_cachefile.exists():",
+  "        p = Path(filepath)\n        hexhash = \"0\" * 64\n\n        # 1. companion cachefile: same location, with '.<name>_<sha512hash>.pickle'\n        companion_cachefile = p.with_name(\".\" + p.stem + \"_\" + hexhash + \".pickle\")\n        if companion_cachefile.exists():")
 m("c17-unreadable-not-ignored", ["C17"], "osaca/semantics/hw_model.py",
   "        except Exception:\n            # e.g., interrupted or concurrent write -> ignore cache and rebuild\n            return None",
   "        except AttributeError:\n            # e.g., interrupted or concurrent write -> ignore cache and rebuild\n            return None")
 m("c17-home-cache-stale", ["C17"], "osaca/semantics/hw_model.py",
-  "        home_cachefile = (Path(utils.CACHE_DIR) / (p.stem + \"_\" + hexhash)).with_suffix(\".pickle\")\n        if home_cachefile.exists():",
-  "        home_cachefile = (Path(utils.CACHE_DIR) / (p.stem + \"_\" + hexhash)).with_suffix(\".pickle\")\n        import glob as _g\n        _c = _g.glob(str(Path(utils.CACHE_DIR) / (p.stem + \"_*.pickle\")))\n        if _c:\n            home_cachefile = Path(_c[0])\n        if home_cachefile.exists():")
+  "        home_cachefile = Path(utils.CACHE_DIR) / (p.stem + \"_\" + hexhash + \".pickle\")\n        if home_cachefile.exists():",
+  "        home_cachefile = Path(utils.CACHE_DIR) / (p.stem + \"_\" + hexhash + \".pickle\")\n        import glob as _g\n        _c = _g.glob(str(Path(utils.CACHE_DIR) / (p.stem + \"_*.pickle\")))\n        if _c:\n            home_cachefile = Path(_c[0])\n        if home_cachefile.exists():")
 m("c17-runtime-cache-authoritative", ["C17", "C18"], "osaca/semantics/hw_model.py",
   "            cached = self._get_cached(self._path) if not lazy else False",
   "            cached = (self._get_cached(self._path) if self._path not in MachineModel._runtime_cache else MachineModel._runtime_cache[self._path]) if not lazy else False")
